@@ -11,6 +11,7 @@ import (
 	"math/rand"
 	"os"
 	"path/filepath"
+	"runtime"
 	"sort"
 	"sync"
 	"time"
@@ -318,13 +319,22 @@ type pwInc struct {
 	rn    *raftconn.RaftNode
 	dead  chan struct{} // closed at the crash instant
 	alive bool
-	// highest journal length at which the node did something another party could
-	// have observed (sent a message, answered a client); a crash image may cut the
-	// journal anywhere at or after it
+	// highest journal length at which the node did something another party HAS
+	// observed: a message of it was delivered (the journal length at its send instant
+	// counts), a client was answered, or the harness learned a committed entry from its
+	// durable state.  A SIGKILL at an earlier local instant t keeps every file-system
+	// mutation before t and loses everything after it, sends included; that is only
+	// legal while nothing done after t has been observed, so a crash image may cut the
+	// journal anywhere at or after visible (messages sent after the cut are still in
+	// the link queues then, and are purged with the connections of the dead process).
 	visible int
+	visKind string // what the observation at visible was: send | answer | commit_read
+	visMsg  string // send: type of the delivered message (MsgVoteResp only if the vote was granted, else "MsgVoteResp(reject)")
+	sentMax int    // journal length at the last send, delivered or not (the rule before: cut >= sentMax)
 	mu      sync.Mutex
 	applied map[int]error // write id -> result of the local apply (StorageService.Write)
 	applyN  int
+	applySeq []int // write keys (id*4 + shard group) in the order of their local applies
 	stopLd  chan struct{}
 	checked uint64 // commit index up to which the committed prefix was compared
 	frozen  int    // journal length at the crash instant
@@ -403,6 +413,7 @@ func (s *pwStorageRec) WriteDataFunc(db, rp string, ptId uint32, shardID uint64,
 		s.n.applied[w] = err
 	}
 	s.n.applyN++
+	s.n.applySeq = append(s.n.applySeq, w)
 	s.n.mu.Unlock()
 	return err
 }
@@ -419,6 +430,11 @@ type pwMsg struct {
 	data     []byte
 	typ      raftpb.MessageType
 	seq      int
+	src      *pwInc // sending incarnation
+	jpos     int    // length of the sender's disk journal at the send instant
+	nent     int    // entries carried
+	term     uint64
+	reject   bool
 }
 
 // pwNet holds the raft messages in flight: one FIFO per directed link.  The
@@ -427,6 +443,7 @@ type pwNet struct {
 	mu      sync.Mutex
 	q       [pwNNodes][pwNNodes][]*pwMsg
 	blocked [pwNNodes][pwNNodes]bool
+	held    [pwNNodes][pwNNodes]time.Time // slow link: queued messages are not delivered before this instant
 	seq     int
 	sent    int64
 	byType  map[string]int64
@@ -452,14 +469,24 @@ func (s *pwSender) SendRaftMessages(nodeID uint64, database string, pt uint32, m
 	if !s.n.alive {
 		return nil // a dead process sends nothing
 	}
-	if l := s.n.disk.Len(); l > s.n.visible {
-		s.n.visible = l
+	jpos := s.n.disk.Len()
+	if jpos > s.n.sentMax {
+		s.n.sentMax = jpos
 	}
 	c.net.seq++
 	c.net.sent++
 	c.net.byType[msg.Type.String()]++
-	c.net.q[s.n.idx][to] = append(c.net.q[s.n.idx][to], &pwMsg{from: s.n.idx, to: to, fromGen: s.n.gen, data: b, typ: msg.Type, seq: c.net.seq})
+	c.net.q[s.n.idx][to] = append(c.net.q[s.n.idx][to], &pwMsg{from: s.n.idx, to: to, fromGen: s.n.gen, data: b, typ: msg.Type, seq: c.net.seq,
+		src: s.n, jpos: jpos, nent: len(msg.Entries), term: msg.Term, reject: msg.Reject})
 	return nil
+}
+
+// observe records that something the incarnation did while its journal was jpos
+// entries long has been seen by another party (caller holds net.mu).
+func (n *pwInc) observe(jpos int, kind string) {
+	if jpos > n.visible {
+		n.visible, n.visKind, n.visMsg = jpos, kind, ""
+	}
 }
 
 // ---- cluster ----------------------------------------------------------------------------
@@ -478,6 +505,7 @@ type pwCluster struct {
 	zombie sync.WaitGroup
 	coord  *metaclient.Client // the coordinator's catalogue view (always current)
 	lag    bool               // stores refresh their catalogue cache only when the clock moves
+	yield  bool               // every file-system mutation of a node first lets the node's other goroutines run
 }
 
 func pwNewCluster(env *core.Env, out *core.Outcome, knobs SKnobs, nmst int, syncIv time.Duration, split bool) *pwCluster {
@@ -517,6 +545,14 @@ func (c *pwCluster) startNode(i int, dir string) (*pwInc, error) {
 		panic(core.InfraPanic("copy tree: " + err.Error()))
 	}
 	n.disk = c.fs.NewDisk(dir)
+	if c.yield {
+		// The Ready loop hands its messages to a sender goroutine through a buffered channel and
+		// goes on to its disk writes; on one P the sender would only ever run after those writes,
+		// so "message left, then the disk write" - the order two cores produce at once - would
+		// never be seen.  Yielding before every file-system mutation lets the sender (and every
+		// other runnable goroutine of the process) go first: a legal schedule of the same code.
+		n.disk.SetGate(func(d *simfs.Disk, e *simfs.Entry) { runtime.Gosched() })
+	}
 	opts := sEngineOptions(c.knobs)
 	opts.RaftEntrySyncInterval = c.syncIv
 	opts.OpenShardLimit = 4 // config.Store corrects 0 to the cpu count
